@@ -34,10 +34,48 @@ theorem chainHits_cons (p a b : IPt) (rest : List IPt) :
 
 theorem rat_irrefl (x : Rat) : ¬ x < x := lt_irrefl x
 
+/-- one step of the pairing invariant: prepend the hits of segment a→b to a hit list `tail` that
+behaves like the hits of a chain starting at b -/
+theorem WP_step (p a b : IPt) (hoff : ¬ onSeg p a b) (tail : List Hit)
+    (ihA : fR p b = true → ∃ z0 t, tail = z0 :: t ∧ z0.tb = .zero ∧ z0.x = (b.x : Rat) ∧
+        WP (isort t) = true)
+    (ihB : fR p b = false → WP (isort tail) = true) :
+    (fR p a = true → ∃ z0 t, edgeHits p a b ++ tail = z0 :: t ∧ z0.tb = .zero ∧ z0.x = (a.x : Rat) ∧
+        WP (isort t) = true) ∧
+    (fR p a = false → WP (isort (edgeHits p a b ++ tail)) = true) := by
+  by_cases hab : a = b
+  · subst hab
+    rw [edgeHits_self, List.nil_append]
+    exact ⟨ihA, ihB⟩
+  · rcases edge_cases p a b hab hoff with
+      ⟨h, fa, fb, _⟩ | ⟨g, h, tb, _, _, fa, fb, _⟩ | ⟨s, h, tb, x, _, _, fa, fb, _⟩ |
+      ⟨e, h, tb, x, _, _, fa, fb, _⟩ | ⟨s, e, h, tbs, tbe, xs, xe, _, _, _, _, fa, fb, _⟩
+    · rw [h, List.nil_append]
+      exact ⟨fun hh => absurd hh (by simp [fa]), fun _ => ihB fb⟩
+    · rw [h]
+      refine ⟨fun hh => absurd hh (by simp [fa]), fun _ => ?_⟩
+      simp only [List.cons_append, List.nil_append, isort]
+      exact WP_ins_mid g tb _ (ihB fb)
+    · rw [h]
+      exact ⟨fun _ => ⟨s, tail, rfl, tb, x, ihB fb⟩, fun hh => absurd hh (by simp [fa])⟩
+    · rw [h]
+      refine ⟨fun hh => absurd hh (by simp [fa]), fun _ => ?_⟩
+      obtain ⟨z0, t, hc, hz0, hx0, hwt⟩ := ihA fb
+      rw [hc]
+      simp only [List.cons_append, List.nil_append, isort]
+      exact WP_ins_pair e z0 (by simp [tb]) (by simp [hz0]) (by rw [hx0, x]) (rat_irrefl _) _ hwt
+    · rw [h]
+      refine ⟨fun _ => ?_, fun hh => absurd hh (by simp [fa])⟩
+      obtain ⟨z0, t, hc, hz0, hx0, hwt⟩ := ihA fb
+      refine ⟨s, e :: tail, rfl, tbs, xs, ?_⟩
+      rw [hc]
+      simp only [isort]
+      exact WP_ins_pair e z0 (by simp [tbe]) (by simp [hz0]) (by rw [hx0, xe]) (rat_irrefl _) _ hwt
+
 /-- (1) the pairing invariant along a chain whose last vertex is not on the ray -/
 theorem chain_WP (p : IPt) (rest : List IPt) : ∀ a, offChain p (a :: rest) →
     fR p ((a :: rest).getLast (by simp)) = false →
-    (fR p a = true → ∃ z0 t, chainHits p (a :: rest) = z0 :: t ∧ z0.tb ≠ .mid ∧ z0.x = (a.x : Rat) ∧
+    (fR p a = true → ∃ z0 t, chainHits p (a :: rest) = z0 :: t ∧ z0.tb = .zero ∧ z0.x = (a.x : Rat) ∧
         WP (isort t) = true) ∧
     (fR p a = false → WP (isort (chainHits p (a :: rest))) = true) := by
   induction rest with
@@ -53,36 +91,46 @@ theorem chain_WP (p : IPt) (rest : List IPt) : ∀ a, offChain p (a :: rest) →
       rw [List.getLast_cons (by simp)] at hl; exact hl
     simp only [offChain] at hoff
     obtain ⟨ihA, ihB⟩ := ih b hoff.2 hl'
-    by_cases hab : a = b
-    · subst hab
-      rw [chainHits_cons, edgeHits_self, List.nil_append]
-      exact ⟨ihA, ihB⟩
-    · rw [chainHits_cons]
-      rcases edge_cases p a b hab hoff.1 with
+    rw [chainHits_cons]
+    exact WP_step p a b hoff.1 _ ihA ihB
+
+/-- (1') the same along a chain `… c L` whose last vertex L IS on the ray (c ≠ L): the hit at the end
+of the last segment is left over at the end of the list, everything before it is paired -/
+theorem chain_WP_last (p : IPt) (L : IPt) (hL : fR p L = true) (rest : List IPt) : ∀ a,
+    (∃ l c, a :: rest = l ++ [c, L] ∧ c ≠ L) → offChain p (a :: rest) →
+    ∃ body e, chainHits p (a :: rest) = body ++ [e] ∧ e.tb = .one ∧ e.x = (L.x : Rat) ∧
+      (fR p a = true → ∃ z0 t, body = z0 :: t ∧ z0.tb = .zero ∧ z0.x = (a.x : Rat) ∧
+        WP (isort t) = true) ∧
+      (fR p a = false → WP (isort body) = true) := by
+  induction rest with
+  | nil =>
+    intro a ⟨l, c, hl, _⟩ _
+    have := congrArg List.length hl
+    simp at this
+  | cons b rest ih =>
+    intro a ⟨l, c, hl, hcL⟩ hoff
+    simp only [offChain] at hoff
+    cases l with
+    | nil =>
+      -- the chain is [c, L]
+      simp only [List.nil_append, List.cons.injEq] at hl
+      obtain ⟨rfl, rfl, rfl⟩ := hl
+      simp only [chainHits, List.append_nil]
+      rcases edge_cases p a b hcL hoff.1 with
         ⟨h, fa, fb, _⟩ | ⟨g, h, tb, _, _, fa, fb, _⟩ | ⟨s, h, tb, x, _, _, fa, fb, _⟩ |
         ⟨e, h, tb, x, _, _, fa, fb, _⟩ | ⟨s, e, h, tbs, tbe, xs, xe, _, _, _, _, fa, fb, _⟩
-      · rw [h, List.nil_append]
-        exact ⟨fun hh => absurd hh (by simp [fa]), fun _ => ihB fb⟩
-      · rw [h]
-        refine ⟨fun hh => absurd hh (by simp [fa]), fun _ => ?_⟩
-        simp only [List.cons_append, List.nil_append, isort]
-        exact WP_ins_mid g tb _ (ihB fb)
-      · rw [h]
-        refine ⟨fun _ => ⟨s, chainHits p (b :: rest), rfl, by simp [tb], x, ihB fb⟩,
+      · rw [hL] at fb; exact absurd fb (by simp)
+      · rw [hL] at fb; exact absurd fb (by simp)
+      · rw [hL] at fb; exact absurd fb (by simp)
+      · exact ⟨[], e, by simp [h], tb, x, fun hh => absurd hh (by simp [fa]), fun _ => by simp [isort, WP]⟩
+      · exact ⟨[s], e, by simp [h], tbe, xe, fun _ => ⟨s, [], rfl, tbs, xs, by simp [isort, WP]⟩,
           fun hh => absurd hh (by simp [fa])⟩
-      · rw [h]
-        refine ⟨fun hh => absurd hh (by simp [fa]), fun _ => ?_⟩
-        obtain ⟨z0, t, hc, hz0, hx0, hwt⟩ := ihA fb
-        rw [hc]
-        simp only [List.cons_append, List.nil_append, isort]
-        exact WP_ins_pair e z0 (by simp [tb]) hz0 (by rw [hx0, x]) (rat_irrefl _) _ hwt
-      · rw [h]
-        refine ⟨fun _ => ?_, fun hh => absurd hh (by simp [fa])⟩
-        obtain ⟨z0, t, hc, hz0, hx0, hwt⟩ := ihA fb
-        refine ⟨s, e :: chainHits p (b :: rest), rfl, by simp [tbs], xs, ?_⟩
-        rw [hc]
-        simp only [isort]
-        exact WP_ins_pair e z0 (by simp [tbe]) hz0 (by rw [hx0, xe]) (rat_irrefl _) _ hwt
+    | cons a' l' =>
+      simp only [List.cons_append, List.cons.injEq] at hl
+      obtain ⟨rfl, hl'⟩ := hl
+      obtain ⟨body', e, hc, he1, he2, ihA, ihB⟩ := ih b ⟨l', c, hl', hcL⟩ hoff.2
+      refine ⟨edgeHits p a b ++ body', e, by rw [chainHits_cons, hc, List.append_assoc], he1, he2, ?_⟩
+      exact WP_step p a b hoff.1 body' ihA ihB
 
 /-- (2) the weights along a chain: twice the crossing sum of the specification plus the
 telescoping term of the two ends -/
